@@ -426,11 +426,35 @@ pub fn net_event(a: &Args, grams: &[(String, Vec<u8>)]) -> Value {
     });
     let (responder, discovery, tx) = match setup {
         Ok(Ok(x)) => x,
-        Ok(Err(why)) => return json!({"ev": "NetRun", "cls": "net inconclusive", "sent": 0, "panics": [], "usable": "inconclusive", "answered": "inconclusive", "note": why}),
-        Err(at) => return json!({"ev": "NetRun", "cls": "net setup", "sent": 0, "panics": [at], "usable": "inconclusive", "answered": "inconclusive", "note": "panic during setup"}),
+        Ok(Err(why)) => return json!({"ev": "NetRun", "cls": "net inconclusive", "sent": 0, "panics": [], "usable": "inconclusive", "answered": "inconclusive", "answered_discovery": "inconclusive", "note": why}),
+        Err(at) => return json!({"ev": "NetRun", "cls": "net setup", "sent": 0, "panics": [at], "usable": "inconclusive", "answered": "inconclusive", "answered_discovery": "inconclusive", "note": "panic during setup"}),
     };
     std::thread::sleep(Duration::from_millis(300));
     let target = "224.0.0.251:5353";
+    // a probe: a valid unicast-response query; answered iff a reply with our id comes back
+    let probe = |name: &str, qtype: simple_dns::QTYPE, id: u16, tries: usize| -> bool {
+        let mut q = Packet::new_query(id);
+        q.questions.push(simple_dns::Question::new(Name::new_unchecked(name).into_owned(), qtype, CLASS::IN.into(), true));
+        let qb = q.build_bytes_vec().unwrap();
+        for _ in 0..tries {
+            let _ = tx.send_to(&qb, target);
+            let mut buf = [0u8; 9000];
+            for _ in 0..4 {
+                if let Ok((n, _)) = tx.recv_from(&mut buf) {
+                    if header_buffer::id(&buf[..n]).ok() == Some(id) && header_buffer::has_flags(&buf[..n], PacketFlag::RESPONSE).unwrap_or(false) {
+                        return true;
+                    }
+                } else {
+                    break;
+                }
+            }
+        }
+        false
+    };
+    let rname = format!("{unique}.local");
+    let sname = format!("_{unique}._tcp.local");
+    let before_responder = probe(&rname, simple_dns::TYPE::A.into(), 0x7701, 3);
+    let before_discovery = probe(&sname, simple_dns::QTYPE::ANY, 0x7702, 3);
     let mut sent = 0u64;
     for (i, (_, d)) in grams.iter().enumerate() {
         if d.len() <= 9000 && tx.send_to(d, target).is_ok() {
@@ -441,26 +465,28 @@ pub fn net_event(a: &Args, grams: &[(String, Vec<u8>)]) -> Value {
         }
     }
     std::thread::sleep(Duration::from_millis(500));
-    // probe: a valid unicast-response query for the responder's record
-    let mut q = Packet::new_query(0x7777);
-    q.questions.push(simple_dns::Question::new(Name::new_unchecked(&format!("{unique}.local")).into_owned(), simple_dns::TYPE::A.into(), CLASS::IN.into(), true));
-    let qb = q.build_bytes_vec().unwrap();
-    let mut answered = "inconclusive";
-    for _ in 0..3 {
-        let _ = tx.send_to(&qb, target);
-        let mut buf = [0u8; 9000];
-        if let Ok((n, _)) = tx.recv_from(&mut buf) {
-            if header_buffer::id(&buf[..n]).ok() == Some(0x7777) {
-                answered = "yes";
-                break;
-            }
-        }
+    let after_responder = probe(&rname, simple_dns::TYPE::A.into(), 0x7703, 6);
+    let after_discovery = probe(&sname, simple_dns::QTYPE::ANY, 0x7704, 6);
+    // control: if a probe went unanswered, is the network still delivering?  A fresh responder must answer.
+    let mut control = true;
+    if (before_responder && !after_responder) || (before_discovery && !after_discovery) {
+        let cname = format!("c{unique}.local");
+        let mut fresh = SimpleMdnsResponder::new(10);
+        fresh.add_resource(ResourceRecord::new(Name::new_unchecked(&cname).into_owned(), CLASS::IN, 10, RData::A(A { address: 0x0a000002 })));
+        std::thread::sleep(Duration::from_millis(300));
+        control = probe(&cname, simple_dns::TYPE::A.into(), 0x7705, 6);
     }
+    // a loop is positively dead when it answered before the hostile traffic, does not answer after it,
+    // and the network demonstrably still works (the control responder answers)
+    let verdict = |before: bool, after: bool| if !before { "inconclusive" } else if after { "yes" } else if control { "no" } else { "inconclusive" };
+    let answered = verdict(before_responder, after_responder);
+    let answered_discovery = verdict(before_discovery, after_discovery);
     let usable = match guarded(|| discovery.get_known_services().len()) {
         Ok(_) => "yes",
         Err(_) => "no",
     };
     drop(responder);
     let panics: Vec<String> = FOREIGN_PANICS.lock().map(|v| v.clone()).unwrap_or_default();
-    json!({"ev": "NetRun", "cls": "net responder+discovery", "sent": sent, "panics": panics, "usable": usable, "answered": answered, "note": ""})
+    json!({"ev": "NetRun", "cls": "net responder+discovery", "sent": sent, "panics": panics, "usable": usable, "answered": answered,
+        "answered_discovery": answered_discovery, "note": ""})
 }
